@@ -83,6 +83,12 @@ pub fn execute(plan: &Plan, ctx: &mut Ctx) {
                             x /= b;
                             hx(x.value)
                         }
+                        // every comparison operator at once (==, !=, <, <=, >, >= and the two directions
+                        // of partial_cmp): with an unordered operand "neither less nor greater" is not "equal"
+                        15 => format!(
+                            "{} {} {} {} {} {} {:?} {:?}",
+                            a == b, a != b, a < b, a <= b, a > b, a >= b, a.partial_cmp(&b), b.partial_cmp(&a)
+                        ),
                         _ => format!("{}", a == b),
                     }
                 }
@@ -279,6 +285,12 @@ fn nz(rng: &mut Rng) -> f32 {
 /// Operand grid for the exact integer operators: signs, zero, odd/even, powers of two.
 const IGRID: [i64; 12] = [-1_000_001, -7, -5, -2, -1, 0, 1, 2, 3, 4, 8, 1_000_001];
 
+/// Operand grid for the comparison operators of Quantity: unordered, infinite, zeros of both signs,
+/// extreme, subnormal and ordinary values.
+const CGRID: [f32; 12] = [
+    f32::NAN, f32::NEG_INFINITY, -f32::MAX, -1.5, -1e-42, -0.0, 0.0, f32::MIN_POSITIVE, 1.5, 2.5, f32::MAX, f32::INFINITY,
+];
+
 pub fn generate(prop: &str, tier: Tier, rng: &mut Rng, seed: u64, run: u64) -> Plan {
     let ill = prop == "C19ill";
     let mut plan = Plan::new("api", prop, seed, run);
@@ -288,6 +300,16 @@ pub fn generate(prop: &str, tier: Tier, rng: &mut Rng, seed: u64, run: u64) -> P
     if !ill && chunk < 40 {
         for k in chunk * 70..(chunk * 70 + 70).min(19 * 144) {
             plan.push("IOP", &[(k / 144) as i64, IGRID[(k / 12 % 12) as usize], IGRID[(k % 12) as usize]]);
+        }
+        if !plan.ops.is_empty() {
+            return plan;
+        }
+    }
+    // ... three enumerate the comparison operators over a 12 x 12 grid of special and ordinary values
+    if !ill && (46..49).contains(&chunk) {
+        let (m, s) = unit_pair(rng);
+        for k in (chunk - 46) * 70..((chunk - 46) * 70 + 70).min(144) {
+            plan.push("QOP", &[15, fb(CGRID[(k / 12) as usize]), m, s, fb(CGRID[(k % 12) as usize]), m, s]);
         }
         if !plan.ops.is_empty() {
             return plan;
@@ -333,16 +355,18 @@ pub fn generate(prop: &str, tier: Tier, rng: &mut Rng, seed: u64, run: u64) -> P
         }
         match rng.below(if ill { 5 } else { 10 }) {
             0 | 1 => {
-                let which = rng.below(15) as i64;
+                let which = rng.below(16) as i64;
                 let (m, s) = unit_pair(rng);
                 // add / sub / cmp / += / -= / == need equal units to be well-dimensioned
-                let same = matches!(which, 0 | 1 | 6 | 7 | 8 | 11);
+                let same = matches!(which, 0 | 1 | 6 | 7 | 8 | 11 | 15);
                 let (m2, s2) = if same && !(ill && rng.chance(0.7)) { (m, s) } else { unit_pair(rng) };
                 // operands: mostly non-zero; zeros of both signs and equal operands regularly
                 let opnd = |rng: &mut Rng| -> f32 {
-                    match rng.below(8) {
+                    match rng.below(10) {
                         0 => 0.0,
                         1 => -0.0,
+                        // values that are not ordinary numbers (unordered, infinite, extreme, subnormal)
+                        2 => *rng.pick(&[f32::NAN, f32::NAN, f32::INFINITY, f32::NEG_INFINITY, f32::MAX, f32::MIN_POSITIVE, 1e-42, -f32::NAN]),
                         _ => nz(rng),
                     }
                 };
@@ -424,7 +448,7 @@ pub fn generate(prop: &str, tier: Tier, rng: &mut Rng, seed: u64, run: u64) -> P
 pub fn strip_units(plan: &mut Plan) {
     for op in plan.ops.iter_mut() {
         match op.code.as_str() {
-            "QOP" if matches!(op.arg(0), 0 | 1 | 6 | 7 | 8 | 11) => {
+            "QOP" if matches!(op.arg(0), 0 | 1 | 6 | 7 | 8 | 11 | 15) => {
                 op.a[5] = op.a[2];
                 op.a[6] = op.a[3];
             }
